@@ -223,14 +223,13 @@ Qed.
 (* ---- ForLoopPT ---- *)
 Lemma int_For i a o s b : int_ok b -> int_ok (For i a o s b).
 Proof.
-  intros HI rho pcs c e v Hwf Hd Hc Hv. cbn [wf] in Hwf. apply andb_prop in Hwf as (_ & Hwf). apply andb_prop in Hwf as (Hfv & Hwf).
-  apply andb_prop in Hfv as (Hfv & Fs). apply andb_prop in Hfv as (Fa & _). apply negb_true_iff in Fa, Fs.
+  intros HI rho pcs c e v Hwf Hd Hc Hv. cbn [wf] in Hwf. apply andb_prop in Hwf as (_ & Hwf).
   cbn [quant] in Hc. rewrite dget_dmap in Hc. destruct (dget c (quant QIntegral b)) as [eb|] eqn:Eeb; [|discriminate].
   inversion Hc; subst e. clear Hc.
   rewrite denote_For in Hd. destruct (as_int (eval rho a)) as [za|] eqn:Ea; [|discriminate].
   destruct (as_int (eval rho o)) as [zo|] eqn:Eo; [|discriminate]. destruct (as_int (eval rho s)) as [zs|] eqn:Es; [|discriminate].
   destruct (py_range za zo zs) as [ks|] eqn:Er; [|discriminate].
-  destruct (for_closed_form rho i a o s eb za zo zs ks v Ea Eo Es Fa Fs Er Hv) as (w & Ew & Hw).
+  destruct (for_closed_form rho i a o s eb za zo zs ks v Ea Eo Es Er Hv) as (w & Ew & Hw).
   assert (Hgen : exists x, p_int pcs c = Some x /\ w == x).
   { clear Hw Hv Er. revert pcs w Hd Ew. induction ks as [|k ks IH]; intros pcs w Hd Ew.
     - inversion Hd. inversion Ew. exists 0. split; reflexivity.
